@@ -127,6 +127,26 @@ Theorem C04_gen_pc_end : forall jsonMode buf newline,
 Proof. exact GenLayoutP.gen_pc_end. Qed.
 Print Assumptions C04_gen_pc_end.
 
+(* THE SEPARATORS AND THE APPEND HELPERS.  pcAppendByte, pcAppendStringValue, pcAppendColon and pcAppendComma,
+   translated from the source on every run (Gen/Layout.v; WriteByte / WriteString append, C19): a byte / a text is
+   appended and nothing else happens; between a key and its value stands ':' in JSON mode and '=' otherwise,
+   between two members ',' in JSON mode and a blank otherwise.  The first two are the renderings the translations
+   of the escapers and of the framing declare for these helpers: now theorems about the code. *)
+Theorem C04_gen_pc_append_byte : forall buf b, Layout.pc_append_byte buf b = Some (buf ++ [zb b]).
+Proof. exact GenLayoutP.gen_pc_append_byte. Qed.
+Print Assumptions C04_gen_pc_append_byte.
+Theorem C04_gen_pc_append_string_value : forall buf str, Layout.pc_append_string_value buf str = Some (buf ++ str).
+Proof. exact GenLayoutP.gen_pc_append_string_value. Qed.
+Print Assumptions C04_gen_pc_append_string_value.
+Theorem C04_gen_pc_append_colon : forall jsonMode buf,
+  Layout.pc_append_colon jsonMode buf = Some (buf ++ [if jsonMode then x3a else x3d]).
+Proof. exact GenLayoutP.gen_pc_append_colon. Qed.
+Print Assumptions C04_gen_pc_append_colon.
+Theorem C04_gen_pc_append_comma : forall jsonMode buf,
+  Layout.pc_append_comma jsonMode buf = Some (buf ++ [if jsonMode then x2c else x20]).
+Proof. exact GenLayoutP.gen_pc_append_comma. Qed.
+Print Assumptions C04_gen_pc_append_comma.
+
 Definition ex_reg : registry :=
   {| r_all := [4]; r_l2s := [(4, [x69; x6e; x66; x6f])]; r_s2l := []; r_tags := []; r_as := []; r_errdev := []; r_colors := [] |}.
 Definition ex_cfg : ecfg :=
